@@ -7,6 +7,9 @@ Driver for correspondence stream `hier` (property C04).  One request = one refin
 `<disp>` = 0 for `np.inf`, otherwise the finite disparity, `<marks>` = length-prefixed list (by
 level) of length-prefixed lists of cells, a cell being `dim` numbers.
 
+`vsup <same arguments>` answers `vsup=<payload>`: `compute_virtual_supports` of the global/new/trunc/
+func_supp/cell_supp index families (`cell_global`, `cell_new`, …) on the final space.
+
 Answer: the observable state after the constructor and after *every* `refine`, steps joined by
 ` ;; `, each step a list of `name=payload` segments joined by ` | ` (see `showStep`).
 -/
@@ -95,30 +98,39 @@ def showStep (s : HSpace) (ret : String) : String :=
     "sup=" ++ showList (fun ix => showSupports s (ix.getLastD [])) [glob, trunc, fsupp, csupp]
   ]
 
+def showVsup (s : HSpace) : String :=
+  "vsup=" ++ showList (fun ix =>
+      showList (fun (e : List (List Idx)) => showLL ((padTo s.numlevels e).map sortIdx)) (s.virtualSupports ix))
+    [s.globalIndices, s.newIndices, s.truncIndices, s.funcSuppIndices, s.cellSuppIndices]
+
 def pKV : P KV := do
   let p ← nat
   let m ← list nat
   pure { p := p, mults := m }
 
+/-- parse `<dim> {kv}^dim <disp> <nops> {op}^nops` -/
+def pHistory : P (HSpace × List (Bool × Marks)) := do
+  let dim ← nat
+  let rec kvs : Nat → List KV → P (List KV)
+    | 0, acc => pure acc.reverse
+    | k+1, acc => do let kv ← pKV; kvs k (kv :: acc)
+  let mesh ← kvs dim []
+  let disp ← nat
+  let nops ← nat
+  let rec ops : Nat → List (Bool × Marks) → P (List (Bool × Marks))
+    | 0, acc => pure acc.reverse
+    | k+1, acc => do
+        let tr ← bool
+        let M ← list (list (pIdx dim))
+        ops k ((tr, M) :: acc)
+  let hist ← ops nops []
+  pure (HSpace.init mesh (if disp = 0 then none else some disp), hist)
+
 def request : P String := do
   let op ← tok
   match op with
   | "hist" => do
-      let dim ← nat
-      let rec kvs : Nat → List KV → P (List KV)
-        | 0, acc => pure acc.reverse
-        | k+1, acc => do let kv ← pKV; kvs k (kv :: acc)
-      let mesh ← kvs dim []
-      let disp ← nat
-      let nops ← nat
-      let rec ops : Nat → List (Bool × Marks) → P (List (Bool × Marks))
-        | 0, acc => pure acc.reverse
-        | k+1, acc => do
-            let tr ← bool
-            let M ← list (list (pIdx dim))
-            ops k ((tr, M) :: acc)
-      let hist ← ops nops []
-      let s0 := HSpace.init mesh (if disp = 0 then none else some disp)
+      let (s0, hist) ← pHistory
       let rec run : HSpace → List (Bool × Marks) → List String → List String
         | _, [], acc => acc.reverse
         | s, (tr, M) :: rest, acc =>
@@ -126,6 +138,14 @@ def request : P String := do
           | .ok (s', M') => run s' rest (showStep s' (showMarks M') :: acc)
           | .error e => run s rest (e :: acc)
       pure (" ;; ".intercalate (run s0 hist [showStep s0 "-"]))
+  | "vsup" => do
+      -- `compute_virtual_supports` of the five index families on the space reached by the history
+      let (s0, hist) ← pHistory
+      let final := hist.foldl (fun (s : HSpace) (o : Bool × Marks) =>
+        match s.refine o.2 o.1 with
+        | .ok (s', _) => s'
+        | .error _ => s) s0
+      pure (showVsup final)
   | _ => failure
 
 def handle (line : String) : String :=
